@@ -89,6 +89,30 @@ var workloads = map[string]func(seed uint64) string{
 		}
 		return p.Get().Canon() + "|" + mem.WritesCanon() + "|" + last
 	},
+	// a cpualt CPU whose bus is only partly attached: reads of unattached addresses are "open bus" reads of this CPU's own bus
+	"cpu-alt-openbus": func(seed uint64) string {
+		r := prng.New(seed)
+		hh, kk := byte(0x21+r.N(0x30)), byte(0x40+r.N(0x30))
+		rom := make([]byte, 0x8000)
+		wram := make([]byte, 0x2000)
+		copy(rom, []byte{0xE2, 0x30, 0xAD, 0x00, hh, 0x85, 0x10, 0xAF, 0x00, 0x00, kk, 0x85, 0x11, 0xEE, 0x12, 0x00, 0x80, 0xF0})
+		rom[0x7FFC], rom[0x7FFD] = 0x00, 0x80
+		cpu := &cpualt.CPU{}
+		cpu.Init()
+		cpu.Bus.AttachReader(0x008000, 0x00FFFF, func(a uint32) uint8 { return rom[a-0x8000] })
+		cpu.Bus.AttachWriter(0x008000, 0x00FFFF, func(a uint32, v uint8) {})
+		cpu.Bus.AttachReader(0x000000, 0x001FFF, func(a uint32) uint8 { return wram[a&0x1FFF] })
+		cpu.Bus.AttachWriter(0x000000, 0x001FFF, func(a uint32, v uint8) { wram[a&0x1FFF] = v })
+		cpu.Reset()
+		var seen []byte
+		for i := 0; i < 120; i++ {
+			cpu.Step()
+			if i%6 == 5 {
+				seen = append(seen, wram[0x10], wram[0x11])
+			}
+		}
+		return fmt.Sprintf("%x pc=%04x a=%02x n=%02x", seen, cpu.PC, cpu.RAl, wram[0x12])
+	},
 	"system": func(seed uint64) string {
 		r := prng.New(seed)
 		s := &emulator.System{}
@@ -389,7 +413,7 @@ func runConc() {
 	}
 	rep.Evaluations = int64(n + bursts)
 	rep.Distinct = int64(len(workloads))
-	rep.Rule = "workloads (each builds its own instances): primary CPU + bus + disassembler 150 steps, cpualt 150 steps, emulator.System RunUntil with Logger and OnWDM, Emitter program with labels/Finalize/" +
+	rep.Rule = "workloads (each builds its own instances): primary CPU + bus + disassembler 150 steps, cpualt 150 steps, a cpualt CPU on a partly attached bus reading open-bus addresses, emulator.System RunUntil with Logger and OnWDM, Emitter program with labels/Finalize/" +
 		"listings, ROM header read/write + BusReader, stateless mapper/colour sweeps; all instances of all kinds run concurrently (one goroutine each, 3 rounds) in a -race build and are compared with the " +
 		"sequential results; before that, per workload kind, a fresh -race process whose first use of the library is 12 instances of that kind released by a barrier (concurrent lazy initialisation); evaluations = concurrent workload executions compared"
 	rep.Emit()
